@@ -8,6 +8,7 @@ import (
 	"runtime/debug"
 	"sort"
 	"strconv"
+	"strings"
 )
 
 // Ctx is what a property's rule set sees.
@@ -102,13 +103,13 @@ func main() {
 		c := &Ctx{Repo: *repo, Tier: *tier, R: r}
 		r.curConfig = "linux/amd64"
 		c.goos, c.arch = "linux", "amd64"
-		p.run(c)
+		runGuarded(p, c, *prop)
 		configs := []string{"linux/amd64"}
 		if *tier == "thorough" && p.matrix {
 			for _, cf := range thoroughConfigs {
 				c2 := &Ctx{Repo: *repo, Tier: *tier, R: r, goos: cf[0], arch: cf[1]}
 				r.curConfig = cf[0] + "/" + cf[1]
-				p.run(c2)
+				runGuarded(p, c2, *prop)
 				configs = append(configs, r.curConfig)
 			}
 		}
@@ -119,4 +120,29 @@ func main() {
 		return r.Finish(*verif, *evidence)
 	}()
 	os.Exit(code)
+}
+
+// runGuarded runs a property's rules. An analyser panic that is not an
+// infrastructure error means a rule met a code shape it cannot interpret:
+// policy "undecided never passes silently" - it is reported as a failed
+// obligation naming the panic, not as a pass and not as a crash.
+func runGuarded(p *propDef, c *Ctx, prop string) {
+	defer func() {
+		if e := recover(); e != nil {
+			if ie, ok := e.(infraError); ok {
+				panic(ie)
+			}
+			st := string(debug.Stack())
+			where := ""
+			for _, line := range strings.Split(st, "\n") {
+				if strings.Contains(line, "/verif/checker/c") && strings.Contains(line, ".go:") {
+					where = strings.TrimSpace(line)
+					break
+				}
+			}
+			c.R.Check(prop+".undecided", "rule could not be evaluated on this code shape", "-", false,
+				fmt.Sprintf("the analyser could not interpret the code it is anchored in (%v at %s); a rule that cannot be decided fails", e, where))
+		}
+	}()
+	p.run(c)
 }
